@@ -277,8 +277,52 @@ Proof.
     + apply IH; [exact I | exact Hf | exists a, cha; auto].
 Qed.
 
-Lemma agents_len_inv : forall s a ch s' ch' site, step s a ch = Some (s', ch', site) -> True.
-Proof. trivial. Qed.
+Lemma len_with_stack s a st : length (agents (with_stack s a st)) = length (agents s).
+Proof. unfold with_stack. rewrite agents_with_agent. apply set_nth_length. Qed.
+Lemma len_start_task s a below t : length (agents (start_task s a below t)) = length (agents s).
+Proof. unfold start_task. cbv zeta. rewrite len_with_stack. reflexivity. Qed.
+Lemma len_take_at s i : length (agents (take_at s i)) = length (agents s).
+Proof. unfold take_at. destruct (i <? length (cq s)); reflexivity. Qed.
+Lemma len_wait_join s a x r below gj : length (agents (wait_join s a x r below gj)) = length (agents s).
+Proof.
+  unfold wait_join. destruct (j_kind (join_of s gj)); [apply len_with_stack|].
+  destruct (fut_state s gj); try apply len_with_stack.
+  destruct (existsb _ _); [rewrite len_start_task; reflexivity | apply len_with_stack].
+Qed.
+Lemma len_spawn s a x r below j k body c : length (agents (spawn s a x r below j k body c)) = length (agents s).
+Proof.
+  unfold spawn. cbv zeta. destruct (Nat.modulo c 3) as [|[|[|m]]]; destruct (first_parked (agents s) 0);
+    rewrite ?agents_with_agent, ?set_nth_length, ?len_with_stack; reflexivity.
+Qed.
+
+Lemma step_agents_len s a ch s' ch' site : step s a ch = Some (s', ch', site) -> length (agents s') = length (agents s).
+Proof.
+  unfold step. destruct (length (agents s) <=? a); [discriminate|].
+  destruct (stack (agent_of s a)) as [|x below].
+  - destruct (negb (worker (agent_of s a)) || parked (agent_of s a)); [discriminate|].
+    destruct (cq s ++ steal s) as [|t0 pool'].
+    + intros H. injection H as <- _ _. rewrite agents_with_agent. apply set_nth_length.
+    + destruct (choice ch) as [c ch1]. cbv zeta. intros H. injection H as <- _ _. rewrite len_start_task. apply len_take_at.
+  - destruct (a_mode x) as [|gj|gj].
+    + destruct (a_ops x) as [|o r].
+      * intros H. injection H as <- _ _. rewrite len_with_stack. reflexivity.
+      * destruct o as [|j k body|j|j].
+        -- intros H. injection H as <- _ _. apply len_with_stack.
+        -- destruct (choice ch) as [c ch1]. intros H. injection H as <- _ _. apply len_spawn.
+        -- destruct (assoc j (a_own x)); intros H; injection H as <- _ _; [apply len_wait_join | apply len_with_stack].
+        -- destruct (assoc j (a_cap x)); intros H; injection H as <- _ _; [apply len_wait_join | apply len_with_stack].
+    + destruct (set_done s gj); [intros H; injection H as <- _ _; apply len_with_stack|].
+      destruct (cq s) as [|t0 pool']; [intros H; injection H as <- _ _; reflexivity|].
+      destruct (choice ch) as [c ch1]. cbv zeta. intros H. injection H as <- _ _. rewrite len_start_task. reflexivity.
+    + destruct (is_done (fut_state s gj)); [|discriminate]. intros H. injection H as <- _ _. apply len_with_stack.
+Qed.
+
+Lemma run_sched_agents_len : forall sch s, length (agents (run_sched s sch)) = length (agents s).
+Proof.
+  induction sch as [|[b c] r IH]; intros s; [rewrite run_sched_nil; reflexivity|].
+  cbn [run_sched]. destruct (finished s); [reflexivity|]. destruct (step s b c) as [[[s1 c1] st]|] eqn:E; [|apply IH].
+  rewrite IH. eapply step_agents_len. exact E.
+Qed.
 
 Lemma status_progress_lt s a : status_of s a = Progress -> a < length (agents s).
 Proof. unfold status_of. destruct (length (agents s) <=? a) eqn:E; [discriminate|]. intros _. apply Nat.leb_gt in E. exact E. Qed.
@@ -295,28 +339,111 @@ Qed.
 Lemma run_sched_finished s sch : finished s = true -> run_sched s sch = s.
 Proof. intros F. destruct sch as [|[a ch] r]; cbn [run_sched]; rewrite F; reflexivity. Qed.
 
-(* every round in which each agent of the CURRENT state gets a turn makes progress or completes the program *)
-Theorem fair_rounds : forall rounds s, Inv s ->
-  (forall rd s1, In rd rounds -> fair_round (length (agents s1)) rd \/ True) ->
-  (forall rd, In rd rounds -> forall a, a < length (agents s) -> exists ch, In (a, ch) rd) ->
-  (forall s1 a ch s2 c2 st, step s1 a ch = Some (s2, c2, st) -> length (agents s2) = length (agents s1)) ->
+(* every round in which each agent gets a turn makes progress or completes the program *)
+Lemma fair_rounds : forall rounds s, Inv s ->
+  (forall rd, In rd rounds -> fair_round (length (agents s)) rd) ->
   finished (run_sched s (concat rounds)) = true \/ mu (run_sched s (concat rounds)) + length rounds <= mu s.
 Proof.
-  induction rounds as [|rd rs IH]; intros s I _ Hfair Hlen; [right; cbn [concat]; rewrite run_sched_nil; cbn; lia|].
+  induction rounds as [|rd rs IH]; intros s I Hfair; [right; cbn [concat]; rewrite run_sched_nil; cbn; lia|].
   cbn [concat]. rewrite run_sched_app. destruct (finished s) eqn:F.
   - left. rewrite (run_sched_finished s rd F). rewrite (run_sched_finished s _ F). exact F.
   - destruct (no_stuck s I F) as (a & Hp).
     destruct (Hfair rd (or_introl eq_refl) a (status_progress_lt s a Hp)) as (ch & Hin).
     destruct (run_sched_mono rd s I) as [I1 M1].
-    assert (Hl1 : length (agents (run_sched s rd)) = length (agents s)).
-    { clear - Hlen. revert s. induction rd as [|[b c] r IHr]; intros s; [rewrite run_sched_nil; reflexivity|].
-      cbn [run_sched]. destruct (finished s); [reflexivity|]. destruct (step s b c) as [[[s1 c1] st]|] eqn:E; [|apply IHr].
-      rewrite IHr. eapply Hlen. exact E. }
     destruct (round_progress rd s I F (ex_intro _ a (ex_intro _ ch (conj Hin Hp)))) as [Fin|Hlt].
     + left. rewrite (run_sched_finished _ _ Fin). exact Fin.
-    + destruct (IH (run_sched s rd) I1 (fun _ _ _ => or_intror Logic.I)) as [Fin|Hle].
-      * intros rd' Hrd' b Hb. rewrite Hl1 in Hb. apply (Hfair rd' (or_intror Hrd') b Hb).
-      * exact Hlen.
+    + destruct (IH (run_sched s rd) I1) as [Fin|Hle].
+      * intros rd' Hrd'. rewrite run_sched_agents_len. apply Hfair. right. exact Hrd'.
       * left. exact Fin.
       * right. cbn [length]. lia.
+Qed.
+
+Theorem fair_termination_proof p n rounds : noup p = true ->
+  (forall rd, In rd rounds -> fair_round (S n) rd) -> mu (init p n) <= length rounds ->
+  finished (run_sched (init p n) (concat rounds)) = true.
+Proof.
+  intros Hp Hfair Hlen. pose proof (inv_init p n Hp) as I.
+  assert (Hag : length (agents (init p n)) = S n) by (cbn; rewrite repeat_length; reflexivity).
+  destruct (fair_rounds rounds (init p n) I) as [Fin|Hle]; [rewrite Hag; exact Hfair | exact Fin|].
+  destruct (finished (run_sched (init p n) (concat rounds))) eqn:F; [reflexivity|]. exfalso.
+  destruct (run_sched_mono (concat rounds) (init p n) I) as [I1 _].
+  destruct (no_stuck _ I1 F) as (a & Hpr).
+  destruct (progress_step _ a [] (i_range _ I1) Hpr) as (s2 & c2 & st2 & _ & Hlt). lia.
+Qed.
+
+(* safety, in the form asked for: in no reachable state is every agent blocked / parked / spinning while the program is unfinished *)
+Theorem no_stuck_with_work_proof p n s : noup p = true -> reach step (init p n) s -> finished s = false ->
+  exists a, status_of s a = Progress /\ forall ch, exists s' ch' site, step s a ch = Some (s', ch', site) /\ mu s' < mu s.
+Proof.
+  intros Hp R F. pose proof (reach_Inv p n s Hp R) as I. destruct (no_stuck s I F) as (a & Ha). exists a. split; [exact Ha|].
+  intros ch. apply progress_step; [apply (i_range s I) | exact Ha].
+Qed.
+
+(* who covers a queued task: the central queue / locality rings are polled by every set-waiter on top of a stack (its step
+   is a Progress step whenever they are non-empty: see status_of), a task in the steal ring has an awake worker of the group
+   whose stack holds only activations younger than the task's submitter *)
+Theorem waiters_cover_proof p n s : noup p = true -> reach step (init p n) s ->
+  (forall t, t < length (tasks s) -> t_st (task_of s t) = TQueued -> In t (cq s ++ steal s)) /\
+  (forall a x below gj, a < length (agents s) -> stack (agent_of s a) = x :: below -> a_mode x = MWaitSet gj ->
+     cq s <> [] -> status_of s a = Progress) /\
+  (steal s <> [] -> exists w, In w (agents s) /\ worker w = true /\ parked w = false /\
+     forall t x, In t (steal s) -> In x (stack w) -> ostart_of s t < a_start x).
+Proof.
+  intros Hp R. pose proof (reach_Inv p n s Hp R) as I. split; [exact (i_queued s I)|]. split; [|exact (i_steal s I)].
+  intros a x below gj Ha Hst Hm Hne. unfold status_of.
+  assert (El : (length (agents s) <=? a) = false) by (apply Nat.leb_gt; exact Ha). rewrite El, Hst, Hm.
+  destruct (set_done s gj); [reflexivity|]. destruct (cq s); [contradiction | reflexivity].
+Qed.
+
+(* ---------- the starvation witness (a wait on a future of an enclosing body) ---------- *)
+(* root: F1 = async { S2 += leaf; wait S2 };  S3 += { wait F1 };  wait S3;  wait F1.     One pool worker.
+   Schedule: the worker takes F1's functor, submits the leaf and enters S2.wait(); the root submits the waiter task and enters
+   S3.wait(), where it takes the LEAF; the worker's wait takes the WAITER task and runs it on top of F1's functor: Future::wait
+   finds F1 running -- by the very thread that now blocks on it.  The leaf finishes; F1's functor can never resume. *)
+Definition witness : list op := [OSpawn 1 JFut [OSpawn 2 JSet [OWork]; OWait 2]; OSpawn 3 JSet [OWaitUp 1]; OWait 3; OWait 1].
+Definition witness_sched : list Z := [0;1; 1;0; 1;1; 1; 0;1; 0; 0;0; 1;0; 1; 0; 0]%Z.
+Definition dead : state := fst (fst (run_nested 40 witness 1 witness_sched)).
+
+Lemma dead_reachable : reach step (init witness 1) dead.
+Proof. unfold dead, run_nested. apply run_reach. apply reach_refl. Qed.
+
+Lemma dead_shape : finished dead = false /\ map (status_of dead) [0; 1] = [Spin; Blocked] /\ cq dead = [] /\ steal dead = [] /\
+  map (fun g => map (fun x => (a_task x, a_mode x)) (stack g)) (agents dead) = [[(0, MWaitSet 3)]; [(3, MWaitFut 1); (1, MWaitSet 2)]].
+Proof. vm_compute. repeat split; reflexivity. Qed.
+
+(* nothing can ever move again: the root spins in its wait, the worker sleeps in the futex *)
+Lemma dead_step a ch : step dead a ch = None \/ exists ch' site, step dead a ch = Some (dead, ch', site).
+Proof.
+  destruct a as [|[|a]].
+  - right. exists ch, site_spin. vm_compute. reflexivity.
+  - left. vm_compute. reflexivity.
+  - left. unfold step. replace (length (agents dead) <=? S (S a)) with true; [reflexivity|].
+    symmetry. apply Nat.leb_le. vm_compute. lia.
+Qed.
+
+Lemma dead_forever s : reach step dead s -> s = dead.
+Proof.
+  intros R. induction R as [|s1 t ch s2 ch2 site R IH E]; [reflexivity|]. subst s1.
+  destruct (dead_step t ch) as [N|(c & st & S)]; rewrite E in *; [discriminate | inversion S; reflexivity].
+Qed.
+
+Lemma witness_acyclic : acyclic witness.
+Proof.
+  exists (fun x => match x with 0 => 3 | 3 => 2 | 1 => 1 | _ => 0 end).
+  intros x y H. vm_compute in H. repeat (destruct H as [H|H]; [inversion H; subst; cbn; lia|]). contradiction.
+Qed.
+
+Lemma witness_has_foreign_wait : noup witness = false.
+Proof. reflexivity. Qed.
+
+Theorem C06_refuted_proof : exists p n s,
+  acyclic p /\ reach step (init p n) s /\ finished s = false /\
+  (forall a, status_of s a <> Progress) /\ (forall s', reach step s s' -> s' = s).
+Proof.
+  exists witness, 1, dead. split; [exact witness_acyclic|]. split; [exact dead_reachable|]. destruct dead_shape as (F & St & _).
+  split; [exact F|]. split; [|exact dead_forever].
+  intros a. destruct a as [|[|a]].
+  - inversion St as [[E0 E1]]. rewrite E0. discriminate.
+  - inversion St as [[E0 E1]]. rewrite E1. discriminate.
+  - unfold status_of. replace (length (agents dead) <=? S (S a)) with true; [discriminate|]. symmetry. apply Nat.leb_le. vm_compute. lia.
 Qed.
